@@ -199,7 +199,7 @@ func C15() *vk.Check {
 		Level: "exploration",
 		Rule: "every input is classified by an independent strict validator (complete-valid / truncated / bad-opcode / overlong-int / zero-length-symbol) and presented three ways (cap==len; prefix of a larger buffer with fill 0xC3; same with fill 0x01) to ParseHandler.ToString/ParseAll and to the VM's Parse* chain; Vm.Run on a subset. Oracle: no panic; malformed => error; the three presentations agree (else the result depends on bytes past the end = over-read). " +
 			"Inputs: ALL byte strings of length<=3 (thorough: 16,843,009, exhaustive; quick: all of length<=2, all of length 3 starting with 0x00, and length 3 with second byte in {0..13,0xff} for the other first bytes, which are all out-of-range opcodes), all strings of length 4..5 (quick) / 4..6 (thorough) over an 18-byte alphabet {0..13,0x20,'a',0x7f,0xff}, and for PRNG programs (1..12 instructions) EVERY truncation and EVERY single-byte substitution (256 values at each position). distinct: enumerated inputs are distinct by construction; non-trivial = every input (each is decoded by both decoders).",
-		Assumptions: []string{"the strict validator (codec.Decode) is the reference for what is malformed", "opcode 0 (NOOP) and errors on complete-valid input are not this property's concern (counted only)", "Vm.Run: only runtime-error panics count; explicit operand guards of package state are execution semantics"},
+		Assumptions:    []string{"the strict validator (codec.Decode) is the reference for what is malformed", "opcode 0 (NOOP) and errors on complete-valid input are not this property's concern (counted only)", "Vm.Run: only runtime-error panics count; explicit operand guards of package state are execution semantics"},
 		MinEvaluations: 100000,
 		Shards:         func(string) int { return 16 },
 		Run:            runC15,
